@@ -103,3 +103,20 @@ func (w *regWorld) regStored(se string, sf uint, fn model.FunctionType) string {
 	}
 	return strconv.Itoa(regDigest(lf.DataCopy(fn)))
 }
+
+// regWirePeer: whose entry a wire entry claims to be — the peer named by the device part of its client address (-1: no
+// device part or not a peer's device; -2: the server address does not name the local device)
+func regWirePeer(client, server *model.FeatureAddressType) int {
+	if server == nil || server.Device == nil || string(*server.Device) != "HEMS" {
+		return -2
+	}
+	if client == nil || client.Device == nil {
+		return -1
+	}
+	for p := 1; p <= 9; p++ {
+		if string(*client.Device) == regDev(p) {
+			return p
+		}
+	}
+	return -1
+}
